@@ -10,9 +10,11 @@ FORM = {"reg": 0, "imm": 1, "ind": 2, "indinc": 3, "abs": 4, "idx": 5, "sym": 6}
 UNITY_EXTRA = ["core/cpu_list.cpp"]
 
 
-def groups(prefix, twopass):
+def groups(prefix, twopass, ops=None):
     out = []
     for nm, row in ROWS.items():
+        if ops is not None and nm not in ops:
+            continue
         for sf in ("reg", "imm", "ind", "indinc", "abs", "idx", "sym"):
             for df in ("reg", "abs", "idx", "sym"):
                 for bws, bwn in ((0, ""), (1, ".b"), (2, ".w")):
@@ -36,7 +38,7 @@ def jump_groups(prefix):
                   unwind=90, checks=CH, timeout=600, tier="quick" if nm in ("jmp", "jne", "jge") else "thorough") for nm, row in JROWS.items()]
 
 
-GROUPS = groups("C01", False) + jump_groups("C01")
+GROUPS = groups("C01", False, ("mov", "add", "addc", "sub", "cmp", "bit", "xor", "and")) + jump_groups("C01")
 LEVEL = "proof"
 TRUSTED = ["spec_two()/spec_src() in contracts/C01/u_asm430.cpp are a hand transcription of SLAU144 sections 3.3-3.4",
            "tokens_get/tokens_push/eval_expression/ignore_operand replaced by the token-script contract (token kinds concrete per form, values symbolic)",
